@@ -1376,8 +1376,12 @@ class RestAPI(object):
                     return aws_error("MissingRequiredParameter"), 400
 
 
-                error = params.get("error")
-                cause = params.get("cause")
+                """
+                error and cause are optional. A failure reported without an
+                error name is reported as the generic States.TaskFailed.
+                """
+                error = params.get("error") or "States.TaskFailed"
+                cause = params.get("cause") or ""
 
                 """
                 First check if the error or cause exceed length limits.
